@@ -181,7 +181,7 @@ C16_DamagedRejected == ev.a = "ret" => (ev.verdict \in {"err:FailedToReadCurrent
 DiffIdx(a, b) == {i \in DOMAIN a : a[i] # b[i]}
 DiffPaths(r, d) == JoinS([k \in 1..Cardinality(d) |-> r.tg[CHOOSE i \in d : Cardinality({j \in d : j < i}) = k - 1]], ",")
 C17_ContradictionReported ==
-  (Graded /\ Distinct) =>
+  (AtRet("build") /\ RulesSane /\ Distinct) =>
      /\ \A x \in g.execs : (x.ok /\ KnownRid(x.rid) /\ "MISSING" \notin SeqSet(x.outs)) =>
           LET r == RuleById(x.rid) IN
           \A e \in g.ever0 : (e.rid = x.rid /\ e.sc = x.seen /\ e.outs # x.outs) =>
@@ -192,6 +192,10 @@ C17_ContradictionReported ==
                              /\ LET sh == SrcHash(x.seen) IN
                                        \/ \E e \in g.ever0 : e.rid = x.rid /\ e.sc = x.seen /\ e.outs # x.outs
                                        \/ (Has(Pre.hist, x.rid) /\ Has(Pre.hist[x.rid], sh) /\ Pre.hist[x.rid][sh] # x.outs)
+\* "builds of other rules are unaffected": everything that does not depend on the undeclared input is still brought up to date
+C17_OthersUnaffected ==
+  (Graded /\ Distinct /\ \E j \in DOMAIN ev.errs : ev.errs[j][1] = "Contradiction") =>
+     \A p \in Scope : (Fine(p) /\ ~Tainted(p)) => Has(ws, p) /\ ws[p].c = Scratch(p)
 C17_HistoryKept ==
   Graded => \A rid \in DOMAIN Pre.hist : Has(hist, rid) /\ \A sh \in DOMAIN Pre.hist[rid] :
                Has(hist[rid], sh) /\ hist[rid][sh] = Pre.hist[rid][sh]
